@@ -29,6 +29,7 @@ func runC01(c *Ctx, r *Report) {
 	c01CSVWholeFieldWrites(c, r)
 	c01SuffixOnPieces(c, r)
 	c01ReusedBuffers(c, r)
+	c01BOMSiblings(c, r)
 	c01DKVPX(c, r)
 	c01JSON(c, r)
 	c01Void(c, r)
